@@ -24,7 +24,15 @@ fn random_case(rng: &mut Rng, s: &str) -> String {
     }
 }
 
-pub fn c04(rng: &mut Rng, _tier: &str, _idx: usize) -> Case {
+pub fn c04(rng: &mut Rng, tier: &str, idx: usize) -> Case {
+    if idx % 60 == 29 {
+        // information contents close to 0 (a term with all but one of > 10 000 records)
+        let (mut c, _, k) = crate::props::big_records_case(rng, 2, tier == "thorough" && idx < 100);
+        for a in 0..8 {
+            c.op(format!("sim 0 {} {}", name(ALG_NAMES[a][0]), KINDS[k]));
+        }
+        return c;
+    }
     let path = rng.below(4);
     let mut c = Case::new(if path < 2 { "sim-builder" } else { "sim-bytes" });
     let with_roots = path >= 2 || rng.chance(1, 2);
